@@ -879,6 +879,16 @@ def t_protect_region(facts, res, tier):
                             seen.add(key)
                             res.inst(key, True, {"function": fname, "mnemonic": mn, "protected": "through %s" % e["callee"]})
                     continue
+                if e["kind"] == "call" and e.get("callee") in ("generate_assign", "generate_arithm", "generate_shift", "generate_plusplus"):
+                    # the access itself made through a two-operand step of the generator: its instructions carry the flag as it is now
+                    p2 = e.get("protected")
+                    key = "T-PROTECT-REGION:%s:via-%s" % (fname, e["callee"])
+                    if key not in seen:
+                        seen.add(key)
+                        res.inst(key, True, {"function": fname, "step": e["callee"], "protected": repr(p2)})
+                        if not (isinstance(p2, Const) and p2.v is True):
+                            res.fail(key, facts.where(fn, e["node"]), "%s makes its access through %s without setting `protected`: the instructions that step emits can be deleted or merged by the optimiser (`load(P[1]); strobe(P[1]);` loses the STA at -O1)" % (fname, e["callee"]))
+                    continue
                 if e["kind"] not in ("asm", "sasm", "sasm_protected"):
                     continue
                 mnv = e["args"][0]
